@@ -5,6 +5,36 @@ import Bmc.Proofs.C07.Sdr
 import Bmc.Proofs.C07.Setup
 import Bmc.Proofs.C07.Dcmi
 import Bmc.Proofs.C07.Api
+import Bmc.Proofs.GenDec.TranslatedOk
+import Bmc.Proofs.GenDec.ReserveSDRRepositoryRsp
+import Bmc.Proofs.GenDec.GetSystemGUIDRsp
+import Bmc.Proofs.GenDec.SetSessionPrivilegeLevelRsp
+import Bmc.Proofs.GenDec.GetSDRRsp
+import Bmc.Proofs.GenDec.SDR
+import Bmc.Proofs.GenDec.GetSensorReadingRsp
+import Bmc.Proofs.GenDec.GetChannelCipherSuitesRsp
+import Bmc.Proofs.GenDec.GetChannelAuthenticationCapabilitiesRsp
+import Bmc.Proofs.GenDec.GetSDRRepositoryInfoRsp
+import Bmc.Proofs.GenDec.GetPowerReadingRsp
+import Bmc.Proofs.GenDec.GetChassisStatusRsp
+import Bmc.Proofs.GenDec.GetDeviceIDRsp
+import Bmc.Proofs.GenDec.RAKPMessage4
+import Bmc.Proofs.GenDec.RAKPMessage2
+import Bmc.Proofs.GenDec.RAKPMessage1
+import Bmc.Proofs.GenDec.V1Session
+import Bmc.Proofs.GenDec.GetSessionInfoRsp
+import Bmc.Proofs.GenDec.OpenSessionRsp
+import Bmc.Proofs.GenDec.GetDCMICapabilitiesInfoManageabilityAccessAttrsRsp
+import Bmc.Proofs.GenDec.GetDCMICapabilitiesInfoOptionalPlatformAttrsRsp
+import Bmc.Proofs.GenDec.GetDCMICapabilitiesInfoSupportedCapabilitiesRsp
+import Bmc.Proofs.GenDec.GetDCMICapabilitiesInfoMandatoryPlatformAttrsRsp
+import Bmc.Proofs.GenDec.SessionSelector
+import Bmc.Proofs.GenDec.Message
+import Bmc.Proofs.GenDec.GetDCMICapabilitiesInfoEnhancedSystemPowerStatisticsAttrsRsp
+import Bmc.Proofs.GenDec.GetDCMISensorInfoRsp
+import Bmc.Proofs.GenDec.FullSensorRecord
+import Bmc.Proofs.GenDec.V2Session
+import Bmc.Proofs.GenDec.AES128CBC
 import Bmc.Proofs.ApiWrappers
 #print axioms Bmc.Proofs.C07.deviceID_decode_spec
 #print axioms Bmc.Proofs.C07.deviceID_short
@@ -119,6 +149,36 @@ import Bmc.Proofs.ApiWrappers
 #print axioms Bmc.Proofs.C07.dcmiManageabilityAccessAttrs_returns_sessionless
 #print axioms Bmc.Proofs.C07.dcmiEnhancedSystemPowerStatisticsAttrs_returns
 #print axioms Bmc.Proofs.C07.dcmiEnhancedSystemPowerStatisticsAttrs_returns_sessionless
+#print axioms Bmc.Proofs.GenDec.translated_ok
+#print axioms Bmc.Proofs.GenDec.ReserveSDRRepositoryRsp_gen_eq
+#print axioms Bmc.Proofs.GenDec.GetSystemGUIDRsp_gen_eq
+#print axioms Bmc.Proofs.GenDec.SetSessionPrivilegeLevelRsp_gen_eq
+#print axioms Bmc.Proofs.GenDec.GetSDRRsp_gen_eq
+#print axioms Bmc.Proofs.GenDec.SDR_gen_eq
+#print axioms Bmc.Proofs.GenDec.GetSensorReadingRsp_gen_eq
+#print axioms Bmc.Proofs.GenDec.GetChannelCipherSuitesRsp_gen_eq
+#print axioms Bmc.Proofs.GenDec.GetChannelAuthenticationCapabilitiesRsp_gen_eq
+#print axioms Bmc.Proofs.GenDec.GetSDRRepositoryInfoRsp_gen_eq
+#print axioms Bmc.Proofs.GenDec.GetPowerReadingRsp_gen_eq
+#print axioms Bmc.Proofs.GenDec.GetChassisStatusRsp_gen_eq
+#print axioms Bmc.Proofs.GenDec.GetDeviceIDRsp_gen_eq
+#print axioms Bmc.Proofs.GenDec.RAKPMessage4_gen_eq
+#print axioms Bmc.Proofs.GenDec.RAKPMessage2_gen_eq
+#print axioms Bmc.Proofs.GenDec.RAKPMessage1_gen_eq
+#print axioms Bmc.Proofs.GenDec.V1Session_gen_eq
+#print axioms Bmc.Proofs.GenDec.GetSessionInfoRsp_gen_eq
+#print axioms Bmc.Proofs.GenDec.OpenSessionRsp_gen_eq
+#print axioms Bmc.Proofs.GenDec.GetDCMICapabilitiesInfoManageabilityAccessAttrsRsp_gen_eq
+#print axioms Bmc.Proofs.GenDec.GetDCMICapabilitiesInfoOptionalPlatformAttrsRsp_gen_eq
+#print axioms Bmc.Proofs.GenDec.GetDCMICapabilitiesInfoSupportedCapabilitiesRsp_gen_eq
+#print axioms Bmc.Proofs.GenDec.GetDCMICapabilitiesInfoMandatoryPlatformAttrsRsp_gen_eq
+#print axioms Bmc.Proofs.GenDec.SessionSelector_gen_eq
+#print axioms Bmc.Proofs.GenDec.Message_gen_eq
+#print axioms Bmc.Proofs.GenDec.GetDCMICapabilitiesInfoEnhancedSystemPowerStatisticsAttrsRsp_gen_eq
+#print axioms Bmc.Proofs.GenDec.GetDCMISensorInfoRsp_gen_eq
+#print axioms Bmc.Proofs.GenDec.FullSensorRecord_gen_eq
+#print axioms Bmc.Proofs.GenDec.V2Session_gen_eq
+#print axioms Bmc.Proofs.GenDec.AES128CBC_gen_eq
 #print axioms Bmc.Proofs.ApiWrappers.api_wrappers
 #print axioms Bmc.Proofs.ApiWrappers.api_other_senders
 #print axioms Bmc.Proofs.ApiWrappers.api_cmd_constructors
